@@ -196,3 +196,44 @@ def shape_stats(n):
         "depth": dep(top) if top is not None else 0,
         "shared": sum(1 for d in defs if len(d.references) > 1),
     }
+
+
+def graft_foreign_policy_definition(rng, n, policy, tag="G"):
+    """A definition populated stand-alone under the OTHER naming policy (named ports / cables / instances that also carry
+    legal, case-insensitively distinct EDIF identifiers) is added to a library of `n` (built under `policy`): the add
+    re-applies n's policy to the whole subtree.  Returns the definition or None when refused / not applicable."""
+    other = "DEFAULT" if policy == "EDIF" else "EDIF"
+    libs = [l for l in n.libraries]
+    if not libs:
+        return None
+    lib = rng.choice(libs)
+    topd = n.top_instance.reference if n.top_instance is not None else None
+    # same library only (no new library dependency), never the top definition (no recursion once the top uses the graft)
+    leafs = [d for d in lib.definitions if not d.children and d.name and d is not topd]
+    old = sdn.namespace_manager.default
+    sdn.namespace_manager.default = other
+    try:
+        g = sdn.Definition("%s_graft%d" % (tag, rng.randrange(1000)))
+        g["EDIF.identifier"] = "%sgraft_id%d" % (tag, rng.randrange(1000))
+        for k in range(rng.randint(1, 3)):
+            p = g.create_port("gp%d" % k, pins=rng.choice([1, 2]), direction=rng.choice(_dirs()))
+            p["EDIF.identifier"] = "gp%d_id" % k
+        for k in range(rng.randint(1, 3)):
+            c = g.create_cable("gnet%d" % k, wires=rng.choice([1, 1, 2]))
+            c["EDIF.identifier"] = "gnet%d_id" % k
+        for k in range(rng.randint(0, 2)):
+            if leafs:
+                i = g.create_child("gi%d" % k, reference=rng.choice(leafs))
+                i["EDIF.identifier"] = "gi%d_id" % k
+        wires = [w for c in g.cables for w in c.wires]
+        for p in g.ports:
+            for pin in p.pins:
+                if rng.random() < 0.7:
+                    rng.choice(wires).connect_pin(pin)
+    finally:
+        sdn.namespace_manager.default = old
+    try:
+        lib.add_definition(g)
+    except ValueError:
+        return None
+    return g
